@@ -92,6 +92,7 @@ typedef struct {
     int late; /* created by an explicit op, not at start-up */
     int rank, sched_changed;
     int nalt, alt[MAXP]; /* pool list for a later main-scheduler replacement */
+    volatile int host_pool; /* stacked scheduler: pool it was added to (+1), 0 = not yet */
 } vxs;
 
 struct globals {
